@@ -60,6 +60,8 @@ func ruleEWriteOwnership(p *Program, r *Reporter) {
 	fns := p.ReachFuncs(p.Eval, p.Root)
 	// types whose methods write through receiver fields: their construction sites carry the obligation
 	fieldWriters := map[*types.Named]map[int]bool{}
+	// methods that assign fields of their own receiver object (a cursor, a collector): the object must be the caller's own
+	selfWriters := map[*ssa.Function]bool{}
 	for _, fn := range fns {
 		a := newFresh(fn)
 		// closures: a free variable is fresh when the enclosing function binds it to a fresh value
@@ -80,6 +82,11 @@ func ruleEWriteOwnership(p *Program, r *Reporter) {
 					key := fmt.Sprintf("%s store %s", name, describeAddr(in.Addr))
 					if a.fresh(in.Addr) {
 						r.OK(in.Pos(), key, "address derives from memory allocated in this call")
+						continue
+					}
+					if withinReceiver(fn, in.Addr) {
+						selfWriters[fn] = true
+						r.OK(in.Pos(), key, "assigns a field of the method's own receiver object; obligation moved to the call sites (the object must be the caller's own local)")
 						continue
 					}
 					if nt, fld, ok := receiverField(fn, in.Addr); ok {
@@ -106,6 +113,12 @@ func ruleEWriteOwnership(p *Program, r *Reporter) {
 						key := fmt.Sprintf("%s append %s", name, describeAddr(c.Args[0]))
 						if a.fresh(c.Args[0]) {
 							r.OK(in.Pos(), key, "appends to a slice allocated in this call (or nil)")
+						} else if nt, fld, ok := receiverField(fn, c.Args[0]); ok {
+							if fieldWriters[nt] == nil {
+								fieldWriters[nt] = map[int]bool{}
+							}
+							fieldWriters[nt][fld] = true
+							r.OK(in.Pos(), key, "appends to a field of receiver type "+nt.Obj().Name()+"; obligation moved to its construction sites")
 						} else {
 							r.Bad(instrPos(in), key, "append to a slice that is not allocated in this call may write into the caller's spare capacity: "+c.Args[0].String())
 						}
@@ -153,6 +166,62 @@ func ruleEWriteOwnership(p *Program, r *Reporter) {
 			}
 		}
 	}
+	// call sites of methods that assign their receiver's fields: the receiver is the caller's own local object, or part of
+	// the caller's own receiver (then the caller carries the same obligation)
+	for changed := true; changed; {
+		changed = false
+		for _, fn := range fns {
+			if selfWriters[fn] {
+				continue
+			}
+			for _, b := range fn.Blocks {
+				for _, in := range b.Instrs {
+					ci, ok := in.(ssa.CallInstruction)
+					if !ok {
+						continue
+					}
+					callee := ci.Common().StaticCallee()
+					if callee == nil || !selfWriters[callee] || len(ci.Common().Args) == 0 {
+						continue
+					}
+					if arg := ci.Common().Args[0]; withinReceiver(fn, arg) || (len(fn.Params) > 0 && fn.Signature.Recv() != nil && arg == ssa.Value(fn.Params[0])) {
+						selfWriters[fn] = true
+						changed = true
+					}
+				}
+			}
+		}
+	}
+	for _, fn := range fns {
+		a := newFresh(fn)
+		if fn.Parent() != nil {
+			a.freshFree = func(fv *ssa.FreeVar) bool { return freeVarFresh(fn, fv) }
+		}
+		n := 0
+		for _, b := range fn.Blocks {
+			for _, in := range b.Instrs {
+				ci, ok := in.(ssa.CallInstruction)
+				if !ok {
+					continue
+				}
+				callee := ci.Common().StaticCallee()
+				if callee == nil || !selfWriters[callee] || len(ci.Common().Args) == 0 {
+					continue
+				}
+				n++
+				arg := ci.Common().Args[0]
+				key := fmt.Sprintf("%s receiver of %s#%d", p.FuncName(fn), callee.Name(), n)
+				switch {
+				case a.fresh(arg):
+					r.OK(in.Pos(), key, "the object whose fields the method assigns is a local of this call")
+				case selfWriters[fn] && (withinReceiver(fn, arg) || arg == ssa.Value(fn.Params[0])):
+					r.OK(in.Pos(), key, "the caller's own receiver (or a part of it); obligation moved to the caller's call sites")
+				default:
+					r.Bad(instrPos(in), key, "a method that assigns fields of its receiver is called on an object that is not a local of this call: "+arg.String()+" (shared state written during evaluation)")
+				}
+			}
+		}
+	}
 	// construction sites of field-writer types
 	var names []*types.Named
 	for nt := range fieldWriters {
@@ -184,6 +253,9 @@ func ruleEWriteOwnership(p *Program, r *Reporter) {
 					sites++
 					st := nt.Underlying().(*types.Struct)
 					for fld := range fieldWriters[nt] {
+						if !holdsRefs(st.Field(fld).Type()) {
+							continue
+						}
 						key := fmt.Sprintf("%s construct %s.%s", p.FuncName(fn), nt.Obj().Name(), st.Field(fld).Name())
 						if a.fieldStoresFresh(al, fld) {
 							r.OK(al.Pos(), key, "field initialised with memory allocated in this call (its methods write through it)")
@@ -238,6 +310,38 @@ func freeVarFresh(fn *ssa.Function, fv *ssa.FreeVar) bool {
 		}
 	}
 	return found
+}
+
+// withinReceiver: addr is the address of a field (of a field ...) of the object the method's pointer receiver points
+// to, reached without loading any pointer: a store there assigns part of the receiver object itself.
+func withinReceiver(fn *ssa.Function, addr ssa.Value) bool {
+	if fn.Signature.Recv() == nil || len(fn.Params) == 0 {
+		return false
+	}
+	if _, isPtr := fn.Params[0].Type().Underlying().(*types.Pointer); !isPtr {
+		return false
+	}
+	v := addr
+	for i := 0; i < 8; i++ {
+		switch x := v.(type) {
+		case *ssa.FieldAddr:
+			if x.X == ssa.Value(fn.Params[0]) {
+				return true
+			}
+			v = x.X
+		case *ssa.IndexAddr:
+			if _, isArr := derefType(x.X.Type()).Underlying().(*types.Array); !isArr {
+				return false
+			}
+			if _, isPtr := x.X.Type().Underlying().(*types.Pointer); !isPtr {
+				return false
+			}
+			v = x.X
+		default:
+			return false
+		}
+	}
+	return false
 }
 
 // receiverField recognises an address derived from a field of the method receiver of a repository struct type.
@@ -628,6 +732,13 @@ func ruleEMapRange(p *Program, r *Reporter) {
 	for _, fn := range p.ReachFuncs() {
 		name := p.FuncName(fn)
 		loops := loopsOf(fn)
+		mapEnumerators := mapEnumerators
+		if !mapEnumerators[name] {
+			if _, ok := exemptVia(p, fn, func(n string) bool { return mapEnumerators[n] }, 0); ok {
+				// a helper that enumerates members only on behalf of the enumerators
+				mapEnumerators = map[string]bool{name: true}
+			}
+		}
 		// find map iterations: Range instruction over a map
 		n := 0
 		for _, b := range fn.Blocks {
@@ -734,7 +845,6 @@ func stdlibReadOnly(callee *ssa.Function) bool {
 	}
 	return readOnlyPkgs[callee.Pkg.Pkg.Path()]
 }
-
 
 // addressOnlyRead: an address derived from a global is used only to read (loads, and addresses of sub-parts that are
 // themselves only read). Returns a description of the first other use, "" when there is none.
